@@ -155,6 +155,33 @@ func runPause(c *drv.Ctx) error {
 	return w.Flush()
 }
 
+func runRPause(c *drv.Ctx) error {
+	w := cw.New(c.Out, pauseHeader, "rpcase", []cw.Check{{Name: "MISMATCH", Fn: "rpcase_ok"}, {Name: "MON06R", Fn: "rpcase_mon"}})
+	w.ShardSize = 120
+	w.Stats.Rule = "a real GraphSync responder (root present, random part of the DAG) answering a request sent by a raw network endpoint that records every message; the responder pauses the response from its outgoing-block hook at the k-th transmitted block (k in 1..blocks, 1/8 no pause) and is unpaused as soon as the endpoint saw the RequestPaused status; " +
+		"monitor: metadata and blocks over all messages equal the honest responder stream of the plan (= the unpaused output), no message between the paused status and the Unpause call carries a block, final status full/partial as expected. non-trivial = the paused status was seen; distinct = distinct terms"
+	run := func(path, kind string) error {
+		var rc rpauseCase
+		if err := drv.ReplayCase(path, &rc); err != nil {
+			return err
+		}
+		return runRPauseCase(w, rc, kind)
+	}
+	if c.Replay != "" {
+		if err := run(c.Replay, "replay"); err != nil {
+			return err
+		}
+		return w.Flush()
+	}
+	n := c.Count(200, 3000)
+	for i := 0; i < n; i++ {
+		if err := runRPauseCase(w, rpauseCase{Seed: c.R.U64(), Block: -1}, "random"); err != nil {
+			return err
+		}
+	}
+	return w.Flush()
+}
+
 func runTraffic(c *drv.Ctx) error {
 	w := cw.New(c.Out, trafficHeader, "tcase", []cw.Check{{Name: "MISMATCH", Fn: "tcase_ok"}, {Name: "MON24", Fn: "tcase_mon"}})
 	w.ShardSize = 120
@@ -199,6 +226,8 @@ func main() {
 		drv.Main("traffic", runTraffic)
 	case "pause":
 		drv.Main("pause", runPause)
+	case "rpause":
+		drv.Main("rpause", runRPause)
 	default:
 		drv.Main("loader", runLoader)
 	}
